@@ -96,6 +96,13 @@ theorem coordFail_rank (c : Cfg) (s : St) (lv : Option After) (e : Err) (k : Nat
     have h2 : rank c (coordFail s (some a) e).pc ≤ 1 + a.base := this.2
     omega
 
+theorem returnsNow_cases (s : St) (m : String) (e : Option Err) (h : returnsNow s m e = true) :
+    s.pc = .retp m e ∨ ((s.pc = .assigning ∨ s.pc = .fetching) ∧ e = some .net) := by
+  simp only [returnsNow, Bool.or_eq_true, Bool.and_eq_true, beq_iff_eq] at h
+  rcases h with h | ⟨⟨h1, _⟩, h3⟩
+  · exact Or.inl h
+  · exact Or.inr ⟨h1, h3⟩
+
 theorem dec_of (c : Cfg) (s s' : St) (hnw : s'.nextWaiting = s.nextWaiting) (hr : rank c s'.pc < rank c s.pc) :
     runMu c s' < runMu c s := runMu_pc c s s' hnw hr
 
@@ -192,9 +199,12 @@ theorem runMu_decreases (c : Cfg) (s s' : St) (e : Ev) (he : e.runLoop = true) (
   case nextGenRet m e =>
     simp only [step] at h
     split at h
-    · rename_i hpc
-      simp only [beq_iff_eq] at hpc
-      split at h <;> (simp at h; subst h; fin_rank)
+    · rename_i hret
+      rcases returnsNow_cases s m e hret with hpc | ⟨hpc, he⟩
+      · split at h <;> (simp at h; subst h; fin_rank)
+      · subst he
+        simp at h; subst h
+        rcases hpc with hpc | hpc <;> fin_rank
     · simp at h
   case leave m =>
     cases hpc : s.pc <;> simp only [step, hpc] at h <;> try contradiction
@@ -322,7 +332,8 @@ theorem runMu_le (c : Cfg) (s s' : St) (e : Ev) (hn : e ≠ .nextCall) (h : step
 outside `gen.close()` (pc `waiting`, which waits for the generation's functions — C15 `close_returns_after_all_exits`)
 and the start of the internal functions, one of its own steps (or the coordinator's answer it waits for) is enabled -/
 theorem run_progress_when_closed (c : Cfg) (s : St) (hc : s.closedCG = true) (hx : s.pc ≠ .exited)
-    (hw : ∀ ret r, s.pc ≠ .waiting ret r) (hs : ∀ k, s.pc ≠ .starting k) (hcur : 0 < s.gens)
+    (hw : ∀ ret r, s.pc ≠ .waiting ret r) (hs : ∀ k, s.pc ≠ .starting k)
+    (hcur : (s.pc = .handing ∨ s.pc = .running ∨ ∃ r, s.pc = .closing r) → 0 < s.gens)
     (hk : ∀ k lv, s.pc = .coord k lv → k ≤ 2) :
     ∃ e, e.runLoop = true ∧ (step c s e).isSome := by
   cases hpc : s.pc with
@@ -341,11 +352,12 @@ theorem run_progress_when_closed (c : Cfg) (s : St) (hc : s.closedCG = true) (hx
   | syncing => exact ⟨.syncRes s.jm s.jg none, rfl, by simp [step, hpc]⟩
   | fetching => exact ⟨.fetchRes none, rfl, by simp [step, hpc]⟩
   | created => exact ⟨.gNew s.gens s.jg s.jm, rfl, by simp [step, hpc]⟩
-  | handing => exact ⟨.sawClose (s.gens - 1) false, rfl, by simp [step, hpc, hc, isCur]; omega⟩
-  | running => exact ⟨.sawClose (s.gens - 1) true, rfl, by simp [step, hpc, hc, isCur]; omega⟩
-  | closing ret => exact ⟨.gClose (s.gens - 1) s.cur.closed s.cur.routines, rfl, by simp [step, hpc, isCur]; omega⟩
+  | handing => have hcur := hcur (Or.inl hpc); exact ⟨.sawClose (s.gens - 1) false, rfl, by simp [step, hpc, hc, isCur]; omega⟩
+  | running => have hcur := hcur (Or.inr (Or.inl hpc)); exact ⟨.sawClose (s.gens - 1) true, rfl, by simp [step, hpc, hc, isCur]; omega⟩
+  | closing ret => have hcur := hcur (Or.inr (Or.inr ⟨ret, hpc⟩)); exact ⟨.gClose (s.gens - 1) s.cur.closed s.cur.routines, rfl, by simp [step, hpc, isCur]; omega⟩
   | retp m e => exact ⟨.nextGenRet m e, rfl, by
-      simp only [step, hpc, beq_self_eq_true, if_true]
+      have hr : returnsNow s m e = true := by simp [returnsNow, hpc]
+      simp only [step, hr, if_true]
       cases e with
       | none => rfl
       | some er => cases er <;> rfl⟩
